@@ -242,11 +242,29 @@ def spell(rnd, model, importer, target):
 def gen_world(rnd, valid_only=None):
     if valid_only is None:
         valid_only = rnd.random() < 0.55
+    # directory layout (swarm): the usual nested one; directories called `src` (the name the
+    # module layout gives a meaning to); directory and file names that are legal but unusual
+    # (inner dots, dashes, a leading digit) - distinct files must stay distinct definitions
+    layout = rnd.choice(["nested", "nested", "nested", "src", "odd"])
     dirs = [CWD]
-    if rnd.random() < 0.75:
-        dirs.append(CWD + "/a")
-        if rnd.random() < 0.6:
-            dirs.append(CWD + "/a/b")
+    names = "xyzw"
+    if layout == "nested":
+        if rnd.random() < 0.75:
+            dirs.append(CWD + "/a")
+            if rnd.random() < 0.6:
+                dirs.append(CWD + "/a/b")
+    elif layout == "src":
+        dirs += rnd.sample([CWD + "/a/src", CWD + "/b/src", CWD + "/src", CWD + "/a"], 2)
+        names = "xy"
+    else:
+        if rnd.random() < 0.7:
+            # two directories whose names are easy to confuse
+            dirs += [CWD + "/" + d for d in rnd.choice([("1", "f1"), ("d.x", "d-x"), ("d.capy", "d"),
+                                                        ("d.x", "d\\.x")])]
+        else:
+            dirs += rnd.sample([CWD + "/1", CWD + "/f1", CWD + "/d.x", CWD + "/d-x", CWD + "/a",
+                                CWD + "/d.capy", CWD + "/d"], 2)
+        names = rnd.choice([["x", "y"], ["x", "y"], ["a.b", "a-b", "x"], ["1", "f1", "x"]])
     files = {"%s/main.capy" % CWD: {"id": 1, "imports": []}}
     next_id = [2]
 
@@ -257,7 +275,9 @@ def gen_world(rnd, valid_only=None):
         next_id[0] += 1
 
     for _ in range(rnd.randint(1, 5)):
-        add_file("%s/%s.capy" % (rnd.choice(dirs), rnd.choice("xyzw")))
+        add_file("%s/%s.capy" % (rnd.choice(dirs), rnd.choice(names)))
+    if layout == "nested" and rnd.random() < 0.15:
+        add_file("%s/.capy" % rnd.choice(dirs))     # a file whose whole name is the suffix
     spec = {"files": files, "dirs": list(dirs) + [MODS + "/core", OUT], "raw": {}, "chains": [],
             "status": rnd.randint(0, 60)}
     # things that exist but must not be importable
@@ -269,7 +289,7 @@ def gen_world(rnd, valid_only=None):
         spec["raw"]["%s/notes.txt" % rnd.choice(dirs)] = "not capy\n"
     # existing files with perfectly valid contents whose names contain `.capy` without ending in it
     near = []
-    for nm in ("w.capy.bak", "lib.capy.txt", "x.capyx", "up.CAPY"):
+    for nm in ("w.capy.bak", "lib.capy.txt", "x.capyx", "up.CAPY", "mix.Capy"):
         if rnd.random() < 0.4:
             pth = "%s/%s" % (rnd.choice(dirs), nm)
             spec["raw"][pth] = "id : i64 : 77;\n"
@@ -329,7 +349,7 @@ def gen_world(rnd, valid_only=None):
                 d = posixpath.dirname(importer)
                 bad = rnd.choice(["missing", "noncapy", "dircapy", "outside", "abs_outside", "mod",
                                   "outside_deep", "almost_capy", "elsewhere", "outside_sibling",
-                                  "outside_sibling", "near_capy", "near_capy"])
+                                  "outside_sibling", "near_capy", "near_capy", "trailing_sep"])
                 if bad == "missing":
                     add_import(importer, "import", rnd.choice(["nope.capy", "a/nope.capy", "../nope.capy"]))
                 elif bad == "noncapy":
@@ -340,6 +360,11 @@ def gen_world(rnd, valid_only=None):
                         add_import(importer, "import", "main.cap")
                 elif bad == "near_capy" and near:
                     add_import(importer, "import", posixpath.relpath(rnd.choice(near), d))
+                elif bad == "trailing_sep":
+                    # an existing, importable file followed by a separator: the string does not
+                    # end in `.capy`
+                    target = rnd.choice(importable)
+                    add_import(importer, "import", posixpath.relpath(target, d) + rnd.choice(["/", "\\", "/."]))
                 elif bad == "almost_capy":
                     target = rnd.choice(importable)
                     add_import(importer, "import", posixpath.relpath(target, d) + rnd.choice([".bak", "x", " "]))
@@ -697,7 +722,13 @@ def main(tier, seed, replay_path=None):
             violations.append(r)
     groups = {}
     for r in violations:
-        groups.setdefault((r["mode"], r["bad"][0][0]), []).append(r)
+        sig = ""
+        if r["bad"][0][0] == "compiler-crashed":
+            # tell crashes apart by where and why (symbol names blanked down to their kind prefix)
+            m = re.search(r"panicked at ([^\n]*)\n([^\n]*)", r["bad"][0][1])
+            if m:
+                sig = re.sub(r":\d+:\d+:?$", "", m.group(1)) + " " + re.sub(r"\d+\w*", "#", m.group(2))[:60]
+        groups.setdefault((r["mode"], r["bad"][0][0], sig), []).append(r)
     for key in sorted(groups):
         r = groups[key][0]
         cls = r["bad"][0][0]
